@@ -154,7 +154,9 @@ impl <N: Numeric> ArrayCreateFrom<N> for Array<N> {
         fn diag_1d<N: Numeric>(data: &Array<N>, k: isize) -> Result<Array<N>, ArrayError> {
             let size = data.get_shape()?[0];
             let abs_k = k.unsigned_abs();
-            let new_shape = vec![size + abs_k, size + abs_k];
+            let side = size.checked_add(abs_k).filter(|side| side.checked_mul(*side).is_some())
+                .ok_or(ArrayError::OutOfBounds { value: "k" })?;
+            let new_shape = vec![side, side];
             let data_elements = data.get_elements()?;
             let elements = (0..new_shape[0] * new_shape[1])
                 .map(|idx| {
@@ -179,7 +181,7 @@ impl <N: Numeric> ArrayCreateFrom<N> for Array<N> {
             let cols = data.get_shape()?[1];
             let (start_row, start_col) =
                 if k >= 0 { (0, k.to_usize()) }
-                else { ((-k).to_usize(), 0) };
+                else { (k.unsigned_abs(), 0) };
 
             let data_elements = data.get_elements()?;
             let elements = (start_row..rows)
@@ -203,12 +205,12 @@ impl <N: Numeric> ArrayCreateFrom<N> for Array<N> {
 
     fn tril(&self, k: Option<isize>) -> Result<Self, ArrayError> {
         let k = k.unwrap_or(0);
-        self.apply_triangular(k, |j, i, k| j > i + k)
+        self.apply_triangular(k, |j, i, k| j > i.saturating_add(k))
     }
 
     fn triu(&self, k: Option<isize>) -> Result<Self, ArrayError> {
         let k = k.unwrap_or(0);
-        self.apply_triangular(k, |j, i, k| j < i + k)
+        self.apply_triangular(k, |j, i, k| j < i.saturating_add(k))
     }
 
     fn vander(&self, n: Option<usize>, increasing: Option<bool>) -> Result<Self, ArrayError> {
